@@ -283,6 +283,10 @@ Section Spec.
         d = H c /\ sub_ok c /\ parse_mt mt = Some mt /\ len c <= limit) /\
     (forall d c, lookup d (t_other st) = Some c -> d = H c).
   Definition inv (g : reg) : Prop := sinv (store_of g).
+  (* the part of [inv] that does not depend on who indexes subjects: what the tag-schema paths need
+     (a registry WITHOUT the Referrers API stores manifests with a subject as plain content) *)
+  Definition minv (g : reg) : Prop :=
+    forall d mt c, lookup d (g_mans g) = Some (mt, c) -> d = H c /\ parse_mt mt = Some mt /\ len c <= limit.
 
   (* every operation of the history is well-formed for the store it meets *)
   Fixpoint wf_hist (st : store) (os : list op) : Prop :=
